@@ -407,7 +407,6 @@ def judge_core_op(ctx, name, r, it):
             exp = iso_text(fl)
             if t != exp and not (not is_int and t in (iso_text(fl + 1), iso_text(fl - 1))):
                 ctx.o("strftime(%s) text differs from the model's (observed, not judged)" % SFMT)
-                ctx.o_sample = (show(it["v"]), t, exp)
 
 
 def judge_epochs(ctx, values):
@@ -1199,11 +1198,11 @@ def main():
         k = max(2, (total + per - 1) // per)
         for i in range(k):
             tasks.append((kind, i, k, ("verif", "release")[i % 2], seed, total // k, thorough))
-    spread("int", run.size(30000, 2400000), 40000)
-    spread("frac", run.size(24000, 900000), 20000)
-    spread("fmt", run.size(5000, 160000), 4000)
-    spread("bdt", run.size(24000, 600000), 20000)
-    spread("iso", run.size(20000, 600000), 20000)
+    spread("int", run.size(30000, 1600000), 40000)
+    spread("frac", run.size(24000, 600000), 20000)
+    spread("fmt", run.size(5000, 100000), 4000)
+    spread("bdt", run.size(24000, 400000), 20000)
+    spread("iso", run.size(20000, 400000), 20000)
     # longest first
     order = {"fmt": 0, "frac": 1, "int": 2, "edge": 3, "bdt": 4, "iso": 5}
     tasks.sort(key=lambda t: order.get(t[0], 9))
